@@ -5,6 +5,25 @@
 // domain and compares, after every message, what the API reports for BOTH remote devices with a
 // reference tree, the entity events with the entity-set delta, and the registries / client-side
 // bookkeeping with the snapshot taken before the message (removal cascade and nothing else).
+//
+// Deliberately not asserted (DESIGN §4 C06 "NA"), avoided by the generator:
+//   - repeated adds, later replies and full notifications list a known entity exactly as it is
+//     (type, description, feature set): replace vs keep is a design choice of the code;
+//   - replies after the first one carry the current entity set plus additions (the code only
+//     adds on replies);
+//   - a peer never removes or omits its own entity [0] (that silences the peer: F24, property
+//     C05), so full notifications always list [0] with NodeManagement and are never empty;
+//   - whether subscription / binding calls are granted is taken from the stack (C08 / C09); only
+//     what a removal does to the entries that exist is asserted;
+//   - a function listed without possibleOperations and a function listed with an empty
+//     possibleOperations both announce "no operation": all-false entries and missing entries of
+//     Operations() are not distinguished.
+//
+// Signatures: C06/<clause>/<input shape>, clause = tree-mismatch | tree-mismatch-lookup |
+// other-peer-tree-changed | entity-events | entity-events-attribution | removal-cascade/<part> |
+// other-peer-state-changed/<part> | crash; shape = reply | initial-reply | end-of-history |
+// no-discovery-message | {add-only, remove-only, add-and-remove-in-one-notification,
+// no-change}/{partial, full}.
 package c06
 
 import (
@@ -736,12 +755,9 @@ func (m *machine) drawPartial(t *rapid.T, pi int) ([]entry, delta) {
 			if s, ok := inMsg[k]; ok {
 				spec = s // the features of an entity are listed once per message
 			} else if cur != nil {
-				// repeated add: unchanged type and feature set (replace vs keep is not asserted);
-				// the description may be announced anew
+				// repeated add: the entity is announced again exactly as it is (whether a changed
+				// feature set replaces the old one is a design choice of the code: not asserted)
 				spec = *clone(*cur)
-				if rapid.IntRange(0, 3).Draw(t, lbl+".newDescription") == 0 {
-					spec.Desc = rapid.SampledFrom(descs).Draw(t, lbl+".desc")
-				}
 				world.Label("entry/re-add")
 			} else {
 				spec = drawEntity(t, addr, lbl)
@@ -1042,6 +1058,10 @@ func TestRemoteTree(t *testing.T) {
 		for i := range m.w.Peers {
 			m.checkTree(t, i, "tree-mismatch", "initial-reply", "both initial replies")
 		}
+
+		// every history has at least one discovery message after the initial replies (rapid's
+		// Repeat produces a good share of very short action sequences)
+		m.message(t)
 
 		t.Repeat(map[string]func(*rapid.T){
 			"message":       m.message,
